@@ -84,6 +84,7 @@ func BeginRun(t *rt.Tape) uint64 {
 	seed := uint64(t.Raw(rt.SGen, nil))<<32 | uint64(t.Raw(rt.SGen, nil))
 	simrand.Reseed(seed)
 	simnet.Reset()
+	rt.ResetKnobs()
 	return seed
 }
 
